@@ -397,8 +397,21 @@ def corpus(kind, s, tier, rnd):
                               entries=[s.entry('c1', {'p3': {'VCPU': 1}}, cgen=-1),
                                        s.entry('c2', {'p3': {'VCPU': 2}}, cgen=-1)]),
             'c4_del': dict(op='alloc_del', v=39, c='c4'),
+            # a claim made through the reshaper (inventories of p3 re-stated unchanged)
+            'reshape_c1_vcpu2': dict(op='reshape', v=39, env=env,
+                                     invs=[{'u': 'p3', 'gen': cur,
+                                            'invs': [{'rc': 'VCPU', 'inv': INV(4)},
+                                                     {'rc': 'DISK_GB', 'inv': INV(50, reserved=10)},
+                                                     {'rc': 'MEMORY_MB', 'inv': INV(64)}]}],
+                                     entries=[s.entry('c1', {'p3': {'VCPU': 2}}, cgen=-1)]),
         }
         guarded = {
+            'reshape_shrink_vcpu': dict(op='reshape', v=39, env=env,
+                                        invs=[{'u': 'p3', 'gen': cur,
+                                               'invs': [{'rc': 'VCPU', 'inv': INV(2)},
+                                                        {'rc': 'DISK_GB', 'inv': INV(50, reserved=10)},
+                                                        {'rc': 'MEMORY_MB', 'inv': INV(64)}]}],
+                                        entries=[]),
             'shrink_vcpu': dict(op='inv_put', v=39, u='p3', rc='VCPU', gen=cur, inv=INV(2)),
             'shrink_all': dict(op='inv_put_all', v=39, u='p3', gen=cur,
                                invs=[{'rc': 'VCPU', 'inv': INV(3)}, {'rc': 'DISK_GB', 'inv': INV(20)}]),
@@ -412,6 +425,8 @@ def corpus(kind, s, tier, rnd):
             for b in ck[i + 1:]:
                 if a[:2] == b[:2] and a[0] == 'c':
                     continue
+                if {a, b} == {'reshape_c1_vcpu2', 'c1_vcpu2'} or {a, b} == {'reshape_c1_vcpu2', 'c1_multi'}:
+                    continue        # same consumer, both expecting none: covered by the C06 races
                 out.append(('%s|%s' % (a, b), [dict(claims[a]), dict(claims[b])]))
         for a in ck:
             for b in sorted(guarded):
